@@ -34,7 +34,7 @@ def gen_tree(r, depth=0):
     d = {}
     for i in range(n):
         k = str(r.choice(["alpha", "b", "key_1", "Zed", "x_10", "x_2", "mass", "n"])) + (str(i) if r.random() < 0.5 else "")
-        kind = r.choice(["none", "empty", "bool", "int", "float", "str", "strs", "nums", "npscalar", "nparray", "dict"])
+        kind = r.choice(["none", "empty", "bool", "int", "float", "str", "strs", "nums", "npscalar", "nparray", "zerod", "dict"])
         if kind == "dict" and depth >= 2:
             kind = "int"
         if kind == "none":
@@ -57,6 +57,21 @@ def gen_tree(r, depth=0):
             d[k] = np.float64(r.normal()) if r.random() < 0.5 else np.int64(r.integers(10))
         elif kind == "nparray":
             d[k] = r.normal(size=int(r.integers(1, 4)))
+        elif kind == "zerod":
+            # a scalar held as a 0-d array (what torch / jax sample sets carry as log-evidence, beta, ...)
+            val = float(r.normal())
+            which = int(r.integers(3))
+            if which == 0:
+                d[k] = np.asarray(val)
+            elif which == 1:
+                import torch
+
+                d[k] = torch.tensor(val, dtype=torch.float64)
+            else:
+                import jax.numpy as jnp
+
+                ns.enable_x64()
+                d[k] = jnp.asarray(val)
         else:
             d[k] = gen_tree(r, depth + 1)
     return d
@@ -75,6 +90,8 @@ def wire(v) -> str:
         return f"L int {int(v)}"
     if isinstance(v, (float, np.floating)):
         return "L num " + fh(float(v))
+    if hasattr(v, "shape") and tuple(v.shape) == ():          # a 0-d array / tensor IS a number
+        return "L num " + fh(float(v))
     if isinstance(v, str):
         return "L str " + hx(v)
     if isinstance(v, (list, tuple)) and v and all(isinstance(x, str) for x in v):
@@ -92,6 +109,8 @@ def canon(v):
     if isinstance(v, (int, np.integer)):
         return int(v)
     if isinstance(v, (float, np.floating)):
+        return float(v)
+    if hasattr(v, "shape") and not isinstance(v, (str, bytes)) and tuple(v.shape) == () and getattr(getattr(v, "dtype", None), "kind", "f") in "fiu":
         return float(v)
     if isinstance(v, (list, tuple)) and all(isinstance(x, str) for x in v):
         return [str(x) for x in v]
@@ -156,7 +175,7 @@ def check_codec(chk, r, n, tmp):
         chk.count("codec_trees")
         depth = lambda v: 1 + max([depth(x) for x in v.values() if isinstance(x, dict)] + [0]) if isinstance(v, dict) else 0
         chk.count(f"codec_depth:{depth(t)}")
-        chk.case(case if chk.evaluations < 4 else None, json.dumps(case["tree"], sort_keys=True) if depth(t) >= 2 or any(v is None or v == {} for v in t.values() if not isinstance(v, np.ndarray)) else None)
+        chk.case(case if chk.evaluations < 4 else None, json.dumps(case["tree"], sort_keys=True) if depth(t) >= 2 or any(v is None or (isinstance(v, dict) and not v) for v in t.values()) else None)
         try:
             with h5py.File(p, "w") as f:
                 recursively_save_to_h5_file(f, "cfg", t)
@@ -196,6 +215,9 @@ def check_samples(chk, r, tmp, quick):
         kw = {f: r.normal(size=N) for f in flds}
         if K is SMCSamples:
             kw.update(beta=0.25, log_evidence=1.5, log_evidence_error=0.5)
+            if j % 2 == 1:       # the scalars as the samplers produce them in this namespace: 0-d arrays
+                xp_ = ns.get_xp(n)
+                kw.update(log_evidence=xp_.asarray(1.5), log_evidence_error=xp_.asarray(0.5))
         s = K(x, xp=ns.get_xp(n), dtype=ns.native_dtype(n, w), parameters=list(names), **kw)
         case = {"level": "samples", "cls": K.__name__, "ns": n, "width": w, "fields": list(flds), "flat": flat, "parameters": names[:4]}
         chk.count(f"samples:{K.__name__}")
@@ -224,7 +246,13 @@ def check_samples(chk, r, tmp, quick):
             a, b = getattr(s, f), getattr(t, f)
             if (a is None) != (b is None) or (a is not None and not np.allclose(ns.to_np(a), ns.to_np(b), rtol=tol, atol=tol)):
                 bad.append(f)
-        if K is SMCSamples and (t.beta != s.beta or float(t.log_evidence) != float(s.log_evidence)):
+        def _num(v):
+            try:
+                return float(v)
+            except Exception:      # noqa - a value that is no longer a number (e.g. came back as text) is a mismatch, not a crash
+                return ("not-a-number", repr(v)[:40])
+
+        if K is SMCSamples and (t.beta != s.beta or _num(t.log_evidence) != _num(s.log_evidence) or _num(t.log_evidence_error) != _num(s.log_evidence_error)):
             bad.append("beta/evidence")
         if K is Samples and s.log_w is not None and (t.log_w is None or not np.allclose(ns.to_np(t.log_w), ns.to_np(s.log_w), rtol=1e-6, atol=1e-6)):
             bad.append("weights")
